@@ -254,4 +254,7 @@ def run(tier):
     rep.floor("document marker tests in the flow/plain scalar scanners", markers.check(rep, F, only={SCANNER + "::scan_plain_scalar", SCANNER + "::scan_flow_scalar"}), 2)
     rep.extra["escape_table"] = {("\\" + (chr(k) if k > 32 else "x%02x" % k)): "U+%04X" % v for k, v in sorted(named.items())}
     rep.extra["hex_lengths"] = {"\\" + chr(k): v for k, v in sorted(hexlen.items())}
+    # the character classes the scalar scanners cut text with
+    from . import charclass
+    rep.floor("character classes compared with their productions", charclass.check(rep, F, ["is_z", "is_break", "is_breakz", "is_blank", "is_blank_or_breakz", "is_flow", "is_hex"]), 6)
     return rep
